@@ -27,6 +27,8 @@ OPS = [
 TRAITS = [
     ("trait_quantity", 'static_assert(!std::is_convertible<Q1, Q2>::value && !std::is_constructible<Q2, Q1>::value && !std::is_assignable<Q2 &, Q1>::value && !VfHasCommon<Q1, Q2>::value, "vf");'),
     ("trait_point", 'static_assert(!std::is_convertible<P1, P2>::value && !std::is_constructible<P2, P1>::value && !std::is_convertible<P2, P1>::value, "vf");'),
+    # (std::common_type of points: the library documents none for *same*-dimension points either, so only "asking about a mismatch is not a hard error and the answer is no" is demanded)
+    ("trait_point_common", 'static_assert(!VfHasCommon<P1, P2>::value && !VfHasCommon<P2, P1>::value && !std::is_assignable<P2 &, P1>::value, "vf");'),
     # the variadic spellings of the dimension question, with the odd one out in every position
     ("trait_has_same_dimension", 'using U1b = decltype(U1{} * mag<2>()); static_assert(!has_same_dimension(U1{}, U2{}) && !has_same_dimension(U1{}, U1b{}, U2{}) && !has_same_dimension(U2{}, U1{}, U1b{}) && !has_same_dimension(U1{}, U2{}, U1b{}) '
                                  '&& !HasSameDimension<U1, U1b, U1, U2>::value && !HasSameDimension<U1, U1b, U2, U2>::value && !HasSameDimension<U1, U1, U2, U2, U1>::value && has_same_dimension(U1{}, U1b{}, U1{}) && HasSameDimension<U1, U1b, U1b, U1>::value, "vf");'),
